@@ -25,6 +25,7 @@ PLACEHOLDERS = [
     (r"err_ty!\.generics\??$", "err_ty_generics", "<__ERRG>"),
     (r"^struct_pre_init\(.*\)\??$", "pre_init", "{ __pre_init }"),
     (r"^main_code_block_ok\(.*\)$", "init_ok", "{ __init_ok }"),
+    (r"^main_code_block\(.*,\s*true\)$", "init_ok", "{ __init_ok }"),
     (r"^main_code_block\(.*\)$", "init", "{ __init }"),
     (r"^struct_post_init\(.*\)[!?]?$", "post_init", "{ __post_init }"),
 ]
@@ -158,3 +159,17 @@ def fn_of_impl(impl):
 
 def assoc_types(impl):
     return [it for it in impl["items"] if it["k"] == "AssocType"]
+
+
+def body_builders(repo):
+    """The two flavours of the body builder as (label, fn, preset arguments): the pair main_code_block / main_code_block_ok, or one
+    main_code_block with a boolean `wrap in Ok` parameter."""
+    from .tables import EXPAND
+    f1 = repo.fn(EXPAND, "main_code_block")
+    f2 = repo.fn_opt(EXPAND, "main_code_block_ok")
+    if f2 is not None:
+        return [("main_code_block", f1, {}), ("main_code_block_ok", f2, {})]
+    bools = [i["pat"].get("name") for i in f1.node["sig"]["inputs"] if not i.get("self") and (i.get("ty") or "").replace(" ", "") == "bool"]
+    if len(bools) == 1:
+        return [("main_code_block", f1, {bools[0]: False}), ("main_code_block_ok", f1, {bools[0]: True})]
+    raise Inconclusive("body builders: neither main_code_block_ok nor a boolean flavour parameter of main_code_block found")
